@@ -256,10 +256,17 @@ func listBounds() (k, batch int) {
 	return 2, 2
 }
 
-// VF_List_L1: two concurrent remote operations commute on an arbitrary state
-// (C01), preserve the invariant (L3), never duplicate/lose/reorder/resurrect
-// elements (C04) and resolve conflicts as the statement says (C02).
-func VF_List_L1() {
+const (
+	modeC01 = 1 << iota // commutation + invariant
+	modeC02             // conflict outcome against the reference
+	modeC04             // element integrity
+)
+
+// listL1 is the inductive step for two concurrent remote list operations on an
+// arbitrary state: they commute (C01), preserve the invariant (L3), never
+// duplicate/lose/reorder/resurrect elements (C04) and resolve conflicts as the
+// statement says (C02).
+func listL1(mode int) {
 	vf.HashAbstract(true)
 	K, B := listBounds()
 	k := vf.Choice("k", K+1)
@@ -272,26 +279,57 @@ func VF_List_L1() {
 	s1, s2 := sp.build(), sp.build()
 	vf.Assert(listInv(s1), "A.2 holds on the constructed pre-state")
 	a.apply(s1)
-	vf.Assert(listInv(s1), "L3 invariant after a")
-	vf.Assert(orderStable(sp, s1), "C04 order stable after a")
+	if mode&modeC01 != 0 {
+		vf.Assert(listInv(s1), "L3 invariant after a")
+	}
+	if mode&modeC04 != 0 {
+		vf.Assert(orderStable(sp, s1), "C04 order stable after a")
+	}
 	b.apply(s1)
 	b.apply(s2)
-	vf.Assert(listInv(s2), "L3 invariant after b")
-	vf.Assert(orderStable(sp, s2), "C04 order stable after b")
+	if mode&modeC01 != 0 {
+		vf.Assert(listInv(s2), "L3 invariant after b")
+	}
+	if mode&modeC04 != 0 {
+		vf.Assert(orderStable(sp, s2), "C04 order stable after b")
+	}
 	a.apply(s2)
 	vf.Reach("applied")
-	vf.Assert(listInv(s1) && listInv(s2), "L3 invariant after both")
-	vf.Assert(sameList(s1, s2), "L1 a;b == b;a")
-	vf.Assert(orderStable(sp, s1), "C04 order stable after both")
-	checkListOutcome(sp, s1, a, b)
+	if mode&modeC01 != 0 {
+		vf.Assert(listInv(s1) && listInv(s2), "L3 invariant after both")
+		vf.Assert(sameList(s1, s2), "L1 a;b == b;a")
+		vf.Assert(jsonEqList(s1, s2), "C01 same JSON view and size")
+	}
+	if mode&modeC04 != 0 {
+		vf.Assert(orderStable(sp, s1) && orderStable(sp, s2), "C04 order stable after both")
+	}
+	checkListOutcome(sp, s1, a, b, mode)
+	checkListOutcome(sp, s2, a, b, mode)
 }
 
+func jsonEqList(a, b *listSnapshot) bool {
+	ja, jb := a.ToJSON().([]interface{}), b.ToJSON().([]interface{})
+	if len(ja) != len(jb) || a.Size() != b.Size() || len(ja) != a.Size() {
+		return false
+	}
+	for i := range ja {
+		if ja[i] != jb[i] {
+			return false
+		}
+	}
+	return true
+}
+
+func VF_List_L1()  { listL1(modeC01) }
+func VF_List_C02() { listL1(modeC02) }
+func VF_List_C04() { listL1(modeC04) }
+
 // checkListOutcome is the reference of C02/C04 written from the statement.
-func checkListOutcome(sp *listSpec, ls *listSnapshot, a, b *listOp) {
+func checkListOutcome(sp *listSpec, ls *listSnapshot, a, b *listOp, mode int) {
 	ops := []*listOp{a, b}
 	// every inserted element exactly once, in batch order, right of its anchor
 	for _, op := range ops {
-		if op.kind != 0 {
+		if op.kind != 0 || mode&modeC04 == 0 {
 			continue
 		}
 		last := posOf(ls, op.anchor) // -1 for head
@@ -304,7 +342,7 @@ func checkListOutcome(sp *listSpec, ls *listSnapshot, a, b *listOp) {
 		}
 	}
 	// concurrent inserts at the same place: newest first
-	if a.kind == 0 && b.kind == 0 && tsEq(a.anchor, b.anchor) {
+	if mode&modeC02 != 0 && a.kind == 0 && b.kind == 0 && tsEq(a.anchor, b.anchor) {
 		vf.Reach("same-anchor")
 		ia := &model.Timestamp{Era: 0, Lamport: a.ts.Lamport, CUID: a.ts.CUID, Delimiter: 0}
 		ib := &model.Timestamp{Era: 0, Lamport: b.ts.Lamport, CUID: b.ts.CUID, Delimiter: 0}
@@ -340,9 +378,92 @@ func checkListOutcome(sp *listSpec, ls *listSnapshot, a, b *listOp) {
 			}
 		}
 		if deleted {
-			vf.Assert(node.isTomb(), "C02/C04 deleted element stays deleted")
-		} else {
+			if mode&(modeC02|modeC04) != 0 {
+				vf.Assert(node.isTomb(), "C02/C04 deleted element stays deleted")
+			}
+		} else if mode&modeC02 != 0 {
 			vf.Assert(!node.isTomb() && node.getValue() == bestV, "C02 newest update wins")
+		} else if mode&modeC04 != 0 {
+			vf.Assert(!node.isTomb(), "C04 element not deleted by anyone stays live")
 		}
 	}
+}
+
+// VF_List_L2: a valid local call (position form) yields the same successor
+// state as delivering the operation it emitted (identifier form) to a copy,
+// and a local insert at index i is immediately readable at index i (C04).
+func VF_List_L2() {
+	vf.HashAbstract(true)
+	K, B := listBounds()
+	k := vf.Choice("k", K+1)
+	sp := vfListSpec("S", k)
+	ts := vfOpTS("op.ts")
+	// L4: a new local identifier is greater than everything the replica has applied
+	for _, n := range sp.nodes {
+		vf.Assume(ts.Lamport > n.O.Lamport)
+		if n.T != nil {
+			vf.Assume(ts.Lamport > n.T.Lamport)
+		}
+	}
+	s1, s2 := sp.build(), sp.build()
+	size := s1.size
+	kind := vf.Choice("op.kind", 3)
+	nb := 1 + vf.Choice("op.batch", B)
+	vf.Tag("kind", string(rune('0'+kind)))
+	switch kind {
+	case 0:
+		pos := vf.Choice("op.pos", size+1)
+		var vals []interface{}
+		for i := 0; i < nb; i++ {
+			vals = append(vals, "new"+string(rune('0'+i)))
+		}
+		anchor, _ := s1.insertLocal(pos, cloneTS(ts), vals...)
+		_ = s2.insertRemote(cloneTS(anchor), cloneTS(ts), vals...)
+		vf.Reach("insert")
+		for i := range vals {
+			vf.Assert(s1.findValue(pos+i) == vals[i], "C04 local insert readable at its index")
+		}
+		vf.Assert(s1.size == size+nb, "C04 size grows by the batch")
+	case 1:
+		if size == 0 {
+			vf.Assume(false)
+		}
+		pos := vf.Choice("op.pos", size)
+		if pos+nb > size {
+			vf.Assume(false)
+		}
+		var want []interface{}
+		for i := 0; i < nb; i++ {
+			want = append(want, s1.findValue(pos+i))
+		}
+		targets, _, vals := s1.deleteLocal(pos, nb, cloneTS(ts))
+		_, _ = s2.deleteRemote(cloneTSList(targets), cloneTS(ts))
+		vf.Reach("delete")
+		vf.Assert(len(vals) == nb && s1.size == size-nb, "C03 delete removes nb elements")
+		for i := range vals {
+			vf.Assert(vals[i] == want[i], "C03 delete returns the deleted values")
+		}
+	case 2:
+		if size == 0 {
+			vf.Assume(false)
+		}
+		pos := vf.Choice("op.pos", size)
+		if pos+nb > size {
+			vf.Assume(false)
+		}
+		var vals []interface{}
+		for i := 0; i < nb; i++ {
+			vals = append(vals, "upd"+string(rune('0'+i)))
+		}
+		targets, _, _ := s1.updateLocal(pos, cloneTS(ts), vals)
+		_, _ = s2.updateRemote(cloneTSList(targets), vals, cloneTS(ts))
+		vf.Reach("update")
+		for i := range vals {
+			vf.Assert(s1.findValue(pos+i) == vals[i], "C03 update readable")
+		}
+		vf.Assert(s1.size == size, "C03 update keeps the size")
+	}
+	vf.Assert(listInv(s1) && listInv(s2), "L3 invariant after local / remote form")
+	vf.Assert(sameList(s1, s2), "L2 local == remote")
+	vf.Assert(orderStable(sp, s1), "C04 order stable after local op")
 }
